@@ -3,6 +3,7 @@
 from __future__ import annotations
 
 import gc
+import sys
 import threading
 import time
 
@@ -184,37 +185,54 @@ def run_program(res: Result, lab, prog, label, hid):
                    f"for i in range({p}):\n    channel.send(({hid}, i))\n"
                    "try:\n    channel.receive()\nexcept EOFError:\n    pass\n"  # wait until the initiator dropped its end
                    + ("1 / 0\n" if ctor is None else f"raise {ctor}\n"))
-            warned = []
-            orig_warn = gb.RemoteError.warn
+            # what gets reported is observed where a user would see it: on this process's stderr (the reporting code
+            # itself stays untouched).  The same failing body runs twice: the second report is due as well.
+            class Capture:
+                def __init__(self):
+                    self.parts = []
 
-            def recording_warn(self_):
-                warned.append(self_.formatted)
+                def write(self, text):
+                    self.parts.append(text)
+                    return len(text)
 
-            gb.RemoteError.warn = recording_warn
+                def flush(self):
+                    pass
+
+                def text(self):
+                    return "".join(self.parts)
+
+            cap = Capture()
+            real_stderr = sys.stderr
+            sys.stderr = cap
+            reports = lambda: sum(1 for block in cap.text().split("unhandled RemoteError")[1:] if name in block and msg in block)
             try:
-                got = []
-                ch = gw.remote_exec(src)
-                ch.setcallback(got.append, endmarker="<end>")
-                del ch
-                gc.collect()
-                from vlib import pairs
-
-                pairs.wait_until(lambda: "<end>" in got, 15.0)
-                # the warning is emitted either when the close arrives (channel object already collected) or when the
-                # object finally goes away (a receiver-thread frame may still hold it for a moment): poll with gc
-                t_end = time.monotonic() + 15.0
-                while not warned and time.monotonic() < t_end:
+                for rnd in (1, 2):
+                    got = []
+                    ch = gw.remote_exec(src)
+                    ch.setcallback(got.append, endmarker="<end>")
+                    del ch
                     gc.collect()
-                    time.sleep(0.02)
+                    from vlib import pairs
+
+                    pairs.wait_until(lambda: "<end>" in got, 15.0)
+                    # the report is written either when the close arrives (channel object already collected) or when the
+                    # object finally goes away (a receiver-thread frame may still hold it for a moment): poll with gc
+                    t_end = time.monotonic() + 15.0
+                    while reports() < rnd and time.monotonic() < t_end:
+                        gc.collect()
+                        time.sleep(0.02)
+                    if got != [(hid, i) for i in range(p)] + ["<end>"]:
+                        res.violation(m("callback-transcript-wrong"), f"{label}: round {rnd}: {short(got)}")
+                    if reports() != rnd:
+                        res.violation(m("failure-of-dropped-channel-not-reported"),
+                                      f"{label}: {reports()} reports on stderr after {rnd} identical failures (stderr: {short(cap.text(), 300)})")
+                        break
+                    res.count("remoteerrors_checked")
             finally:
-                gb.RemoteError.warn = orig_warn
-            if got != [(hid, i) for i in range(p)] + ["<end>"]:
-                res.violation(m("callback-transcript-wrong"), f"{label}: {short(got)}")
-            mine = [w for w in warned if name in w and msg in w]
-            if len(mine) != 1:
-                res.violation(m("failure-of-dropped-channel-not-reported"), f"{label}: {len(mine)} warnings about this failure (all: {short(warned, 200)})")
-            else:
-                res.count("remoteerrors_checked")
+                sys.stderr = real_stderr
+                other = [ln for ln in cap.text().splitlines() if ln.strip() and "unhandled RemoteError" not in cap.text()]
+                if other:
+                    real_stderr.write("\n".join(other[:20]) + "\n")
         elif kind == "body":
             src, errline = body_source(hid, p, exc)
             ch = gw.remote_exec(src)
@@ -445,7 +463,18 @@ def run_shard(spec):
                 label = f"sweep line={ln[1]} k={k} prog={prog}"
             nviol = res.counters.get("violations_raw", 0)
             try:
-                run_program(res, lab, prog, label, hid)
+                if i % 4 == 1:
+                    # an application that turns warnings into errors (-W error, pytest's filterwarnings=error): reporting
+                    # a failure must not be what takes the gateway down
+                    import warnings
+
+                    label += " [warnings=error]"
+                    res.count("programs_with_warnings_as_errors")
+                    with warnings.catch_warnings():
+                        warnings.simplefilter("error")
+                        run_program(res, lab, prog, label, hid)
+                else:
+                    run_program(res, lab, prog, label, hid)
             except BaseException as e:
                 res.violation(f"program-raised:{type(e).__name__}:{prog['kind']}", f"{label}: {e}")
             if res.counters.get("violations_raw", 0) != nviol or (prog["dropped"] and prog["kind"] != "body"):
